@@ -15,6 +15,9 @@ theorem MSO_AUTO_SHAPE_TYPE_roundtrip (i : Nat) (hi : i < (dropIdxs MSO_AUTO_SHA
 /-- the listed members really are later duplicates (the finding is a fact of the table, not an excuse) -/
 theorem MSO_AUTO_SHAPE_TYPE_listed_are_later_duplicates : laterDupB MSO_AUTO_SHAPE_TYPE_all MSO_AUTO_SHAPE_TYPE_listed = true := by decide +kernel
 
+/-- every token of MSO_AUTO_SHAPE_TYPE is in the schema enumeration ST_ShapeType -/
+theorem MSO_AUTO_SHAPE_TYPE_in_schema : subsetB MSO_AUTO_SHAPE_TYPE_all MSO_AUTO_SHAPE_TYPE_schema = true := by decide +kernel
+
 /-- tokens of MSO_CONNECTOR_TYPE (3 members with an XML value) are pairwise distinct, apart from the members listed as known findings -/
 theorem MSO_CONNECTOR_TYPE_distinct : nodupB (dropIdxs MSO_CONNECTOR_TYPE_all MSO_CONNECTOR_TYPE_listed) = true := by decide +kernel
 
@@ -39,12 +42,18 @@ theorem MSO_LINE_DASH_STYLE_roundtrip (i : Nat) (hi : i < (dropIdxs MSO_LINE_DAS
     findIdx (dropIdxs MSO_LINE_DASH_STYLE_all MSO_LINE_DASH_STYLE_listed) (dropIdxs MSO_LINE_DASH_STYLE_all MSO_LINE_DASH_STYLE_listed)[i] = some i :=
   roundtrip_of_nodup _ (nodupB_sound _ MSO_LINE_DASH_STYLE_distinct) i hi
 
+/-- every token of MSO_LINE_DASH_STYLE is in the schema enumeration ST_PresetLineDashVal -/
+theorem MSO_LINE_DASH_STYLE_in_schema : subsetB MSO_LINE_DASH_STYLE_all MSO_LINE_DASH_STYLE_schema = true := by decide +kernel
+
 /-- tokens of MSO_PATTERN_TYPE (54 members with an XML value) are pairwise distinct, apart from the members listed as known findings -/
 theorem MSO_PATTERN_TYPE_distinct : nodupB (dropIdxs MSO_PATTERN_TYPE_all MSO_PATTERN_TYPE_listed) = true := by decide +kernel
 
 theorem MSO_PATTERN_TYPE_roundtrip (i : Nat) (hi : i < (dropIdxs MSO_PATTERN_TYPE_all MSO_PATTERN_TYPE_listed).length) :
     findIdx (dropIdxs MSO_PATTERN_TYPE_all MSO_PATTERN_TYPE_listed) (dropIdxs MSO_PATTERN_TYPE_all MSO_PATTERN_TYPE_listed)[i] = some i :=
   roundtrip_of_nodup _ (nodupB_sound _ MSO_PATTERN_TYPE_distinct) i hi
+
+/-- every token of MSO_PATTERN_TYPE is in the schema enumeration ST_PresetPatternVal -/
+theorem MSO_PATTERN_TYPE_in_schema : subsetB MSO_PATTERN_TYPE_all MSO_PATTERN_TYPE_schema = true := by decide +kernel
 
 /-- tokens of MSO_TEXT_UNDERLINE_TYPE (18 members with an XML value) are pairwise distinct, apart from the members listed as known findings -/
 theorem MSO_TEXT_UNDERLINE_TYPE_distinct : nodupB (dropIdxs MSO_TEXT_UNDERLINE_TYPE_all MSO_TEXT_UNDERLINE_TYPE_listed) = true := by decide +kernel
@@ -53,12 +62,18 @@ theorem MSO_TEXT_UNDERLINE_TYPE_roundtrip (i : Nat) (hi : i < (dropIdxs MSO_TEXT
     findIdx (dropIdxs MSO_TEXT_UNDERLINE_TYPE_all MSO_TEXT_UNDERLINE_TYPE_listed) (dropIdxs MSO_TEXT_UNDERLINE_TYPE_all MSO_TEXT_UNDERLINE_TYPE_listed)[i] = some i :=
   roundtrip_of_nodup _ (nodupB_sound _ MSO_TEXT_UNDERLINE_TYPE_distinct) i hi
 
+/-- every token of MSO_TEXT_UNDERLINE_TYPE is in the schema enumeration ST_TextUnderlineType -/
+theorem MSO_TEXT_UNDERLINE_TYPE_in_schema : subsetB MSO_TEXT_UNDERLINE_TYPE_all MSO_TEXT_UNDERLINE_TYPE_schema = true := by decide +kernel
+
 /-- tokens of MSO_THEME_COLOR_INDEX (16 members with an XML value) are pairwise distinct, apart from the members listed as known findings -/
 theorem MSO_THEME_COLOR_INDEX_distinct : nodupB (dropIdxs MSO_THEME_COLOR_INDEX_all MSO_THEME_COLOR_INDEX_listed) = true := by decide +kernel
 
 theorem MSO_THEME_COLOR_INDEX_roundtrip (i : Nat) (hi : i < (dropIdxs MSO_THEME_COLOR_INDEX_all MSO_THEME_COLOR_INDEX_listed).length) :
     findIdx (dropIdxs MSO_THEME_COLOR_INDEX_all MSO_THEME_COLOR_INDEX_listed) (dropIdxs MSO_THEME_COLOR_INDEX_all MSO_THEME_COLOR_INDEX_listed)[i] = some i :=
   roundtrip_of_nodup _ (nodupB_sound _ MSO_THEME_COLOR_INDEX_distinct) i hi
+
+/-- every token of MSO_THEME_COLOR_INDEX is in the schema enumeration ST_SchemeColorVal -/
+theorem MSO_THEME_COLOR_INDEX_in_schema : subsetB MSO_THEME_COLOR_INDEX_all MSO_THEME_COLOR_INDEX_schema = true := by decide +kernel
 
 /-- tokens of MSO_VERTICAL_ANCHOR (3 members with an XML value) are pairwise distinct, apart from the members listed as known findings -/
 theorem MSO_VERTICAL_ANCHOR_distinct : nodupB (dropIdxs MSO_VERTICAL_ANCHOR_all MSO_VERTICAL_ANCHOR_listed) = true := by decide +kernel
@@ -67,12 +82,18 @@ theorem MSO_VERTICAL_ANCHOR_roundtrip (i : Nat) (hi : i < (dropIdxs MSO_VERTICAL
     findIdx (dropIdxs MSO_VERTICAL_ANCHOR_all MSO_VERTICAL_ANCHOR_listed) (dropIdxs MSO_VERTICAL_ANCHOR_all MSO_VERTICAL_ANCHOR_listed)[i] = some i :=
   roundtrip_of_nodup _ (nodupB_sound _ MSO_VERTICAL_ANCHOR_distinct) i hi
 
+/-- every token of MSO_VERTICAL_ANCHOR is in the schema enumeration ST_TextAnchoringType -/
+theorem MSO_VERTICAL_ANCHOR_in_schema : subsetB MSO_VERTICAL_ANCHOR_all MSO_VERTICAL_ANCHOR_schema = true := by decide +kernel
+
 /-- tokens of PP_PARAGRAPH_ALIGNMENT (7 members with an XML value) are pairwise distinct, apart from the members listed as known findings -/
 theorem PP_PARAGRAPH_ALIGNMENT_distinct : nodupB (dropIdxs PP_PARAGRAPH_ALIGNMENT_all PP_PARAGRAPH_ALIGNMENT_listed) = true := by decide +kernel
 
 theorem PP_PARAGRAPH_ALIGNMENT_roundtrip (i : Nat) (hi : i < (dropIdxs PP_PARAGRAPH_ALIGNMENT_all PP_PARAGRAPH_ALIGNMENT_listed).length) :
     findIdx (dropIdxs PP_PARAGRAPH_ALIGNMENT_all PP_PARAGRAPH_ALIGNMENT_listed) (dropIdxs PP_PARAGRAPH_ALIGNMENT_all PP_PARAGRAPH_ALIGNMENT_listed)[i] = some i :=
   roundtrip_of_nodup _ (nodupB_sound _ PP_PARAGRAPH_ALIGNMENT_distinct) i hi
+
+/-- every token of PP_PARAGRAPH_ALIGNMENT is in the schema enumeration ST_TextAlignType -/
+theorem PP_PARAGRAPH_ALIGNMENT_in_schema : subsetB PP_PARAGRAPH_ALIGNMENT_all PP_PARAGRAPH_ALIGNMENT_schema = true := by decide +kernel
 
 /-- tokens of PP_PLACEHOLDER_TYPE (16 members with an XML value) are pairwise distinct, apart from the members listed as known findings -/
 theorem PP_PLACEHOLDER_TYPE_distinct : nodupB (dropIdxs PP_PLACEHOLDER_TYPE_all PP_PLACEHOLDER_TYPE_listed) = true := by decide +kernel
@@ -81,12 +102,18 @@ theorem PP_PLACEHOLDER_TYPE_roundtrip (i : Nat) (hi : i < (dropIdxs PP_PLACEHOLD
     findIdx (dropIdxs PP_PLACEHOLDER_TYPE_all PP_PLACEHOLDER_TYPE_listed) (dropIdxs PP_PLACEHOLDER_TYPE_all PP_PLACEHOLDER_TYPE_listed)[i] = some i :=
   roundtrip_of_nodup _ (nodupB_sound _ PP_PLACEHOLDER_TYPE_distinct) i hi
 
+/-- every token of PP_PLACEHOLDER_TYPE is in the schema enumeration ST_PlaceholderType -/
+theorem PP_PLACEHOLDER_TYPE_in_schema : subsetB PP_PLACEHOLDER_TYPE_all PP_PLACEHOLDER_TYPE_schema = true := by decide +kernel
+
 /-- tokens of XL_AXIS_CROSSES (3 members with an XML value) are pairwise distinct, apart from the members listed as known findings -/
 theorem XL_AXIS_CROSSES_distinct : nodupB (dropIdxs XL_AXIS_CROSSES_all XL_AXIS_CROSSES_listed) = true := by decide +kernel
 
 theorem XL_AXIS_CROSSES_roundtrip (i : Nat) (hi : i < (dropIdxs XL_AXIS_CROSSES_all XL_AXIS_CROSSES_listed).length) :
     findIdx (dropIdxs XL_AXIS_CROSSES_all XL_AXIS_CROSSES_listed) (dropIdxs XL_AXIS_CROSSES_all XL_AXIS_CROSSES_listed)[i] = some i :=
   roundtrip_of_nodup _ (nodupB_sound _ XL_AXIS_CROSSES_distinct) i hi
+
+/-- every token of XL_AXIS_CROSSES is in the schema enumeration ST_Crosses -/
+theorem XL_AXIS_CROSSES_in_schema : subsetB XL_AXIS_CROSSES_all XL_AXIS_CROSSES_schema = true := by decide +kernel
 
 /-- tokens of XL_DATA_LABEL_POSITION (9 members with an XML value) are pairwise distinct, apart from the members listed as known findings -/
 theorem XL_DATA_LABEL_POSITION_distinct : nodupB (dropIdxs XL_DATA_LABEL_POSITION_all XL_DATA_LABEL_POSITION_listed) = true := by decide +kernel
@@ -95,12 +122,18 @@ theorem XL_DATA_LABEL_POSITION_roundtrip (i : Nat) (hi : i < (dropIdxs XL_DATA_L
     findIdx (dropIdxs XL_DATA_LABEL_POSITION_all XL_DATA_LABEL_POSITION_listed) (dropIdxs XL_DATA_LABEL_POSITION_all XL_DATA_LABEL_POSITION_listed)[i] = some i :=
   roundtrip_of_nodup _ (nodupB_sound _ XL_DATA_LABEL_POSITION_distinct) i hi
 
+/-- every token of XL_DATA_LABEL_POSITION is in the schema enumeration ST_DLblPos -/
+theorem XL_DATA_LABEL_POSITION_in_schema : subsetB XL_DATA_LABEL_POSITION_all XL_DATA_LABEL_POSITION_schema = true := by decide +kernel
+
 /-- tokens of XL_LEGEND_POSITION (5 members with an XML value) are pairwise distinct, apart from the members listed as known findings -/
 theorem XL_LEGEND_POSITION_distinct : nodupB (dropIdxs XL_LEGEND_POSITION_all XL_LEGEND_POSITION_listed) = true := by decide +kernel
 
 theorem XL_LEGEND_POSITION_roundtrip (i : Nat) (hi : i < (dropIdxs XL_LEGEND_POSITION_all XL_LEGEND_POSITION_listed).length) :
     findIdx (dropIdxs XL_LEGEND_POSITION_all XL_LEGEND_POSITION_listed) (dropIdxs XL_LEGEND_POSITION_all XL_LEGEND_POSITION_listed)[i] = some i :=
   roundtrip_of_nodup _ (nodupB_sound _ XL_LEGEND_POSITION_distinct) i hi
+
+/-- every token of XL_LEGEND_POSITION is in the schema enumeration ST_LegendPos -/
+theorem XL_LEGEND_POSITION_in_schema : subsetB XL_LEGEND_POSITION_all XL_LEGEND_POSITION_schema = true := by decide +kernel
 
 /-- tokens of XL_MARKER_STYLE (12 members with an XML value) are pairwise distinct, apart from the members listed as known findings -/
 theorem XL_MARKER_STYLE_distinct : nodupB (dropIdxs XL_MARKER_STYLE_all XL_MARKER_STYLE_listed) = true := by decide +kernel
@@ -109,6 +142,9 @@ theorem XL_MARKER_STYLE_roundtrip (i : Nat) (hi : i < (dropIdxs XL_MARKER_STYLE_
     findIdx (dropIdxs XL_MARKER_STYLE_all XL_MARKER_STYLE_listed) (dropIdxs XL_MARKER_STYLE_all XL_MARKER_STYLE_listed)[i] = some i :=
   roundtrip_of_nodup _ (nodupB_sound _ XL_MARKER_STYLE_distinct) i hi
 
+/-- every token of XL_MARKER_STYLE is in the schema enumeration ST_MarkerStyle -/
+theorem XL_MARKER_STYLE_in_schema : subsetB XL_MARKER_STYLE_all XL_MARKER_STYLE_schema = true := by decide +kernel
+
 /-- tokens of XL_TICK_LABEL_POSITION (4 members with an XML value) are pairwise distinct, apart from the members listed as known findings -/
 theorem XL_TICK_LABEL_POSITION_distinct : nodupB (dropIdxs XL_TICK_LABEL_POSITION_all XL_TICK_LABEL_POSITION_listed) = true := by decide +kernel
 
@@ -116,12 +152,18 @@ theorem XL_TICK_LABEL_POSITION_roundtrip (i : Nat) (hi : i < (dropIdxs XL_TICK_L
     findIdx (dropIdxs XL_TICK_LABEL_POSITION_all XL_TICK_LABEL_POSITION_listed) (dropIdxs XL_TICK_LABEL_POSITION_all XL_TICK_LABEL_POSITION_listed)[i] = some i :=
   roundtrip_of_nodup _ (nodupB_sound _ XL_TICK_LABEL_POSITION_distinct) i hi
 
+/-- every token of XL_TICK_LABEL_POSITION is in the schema enumeration ST_TickLblPos -/
+theorem XL_TICK_LABEL_POSITION_in_schema : subsetB XL_TICK_LABEL_POSITION_all XL_TICK_LABEL_POSITION_schema = true := by decide +kernel
+
 /-- tokens of XL_TICK_MARK (4 members with an XML value) are pairwise distinct, apart from the members listed as known findings -/
 theorem XL_TICK_MARK_distinct : nodupB (dropIdxs XL_TICK_MARK_all XL_TICK_MARK_listed) = true := by decide +kernel
 
 theorem XL_TICK_MARK_roundtrip (i : Nat) (hi : i < (dropIdxs XL_TICK_MARK_all XL_TICK_MARK_listed).length) :
     findIdx (dropIdxs XL_TICK_MARK_all XL_TICK_MARK_listed) (dropIdxs XL_TICK_MARK_all XL_TICK_MARK_listed)[i] = some i :=
   roundtrip_of_nodup _ (nodupB_sound _ XL_TICK_MARK_distinct) i hi
+
+/-- every token of XL_TICK_MARK is in the schema enumeration ST_TickMark -/
+theorem XL_TICK_MARK_in_schema : subsetB XL_TICK_MARK_all XL_TICK_MARK_schema = true := by decide +kernel
 
 /-- every auto-shape type's preset name is defined in presetShapeDefinitions.xml and its adjustment names, order
     and default values equal the definition's -/
